@@ -69,6 +69,37 @@ def systematic():
 CLASSES = {"type", "null-allowed", "valid"}
 
 
+def huge_bound_cases():
+    """integers whose bound lies beyond every 64-bit type (exponent notation): the position is still an integer - fractions, strings, booleans are rejected,
+    integers inside Go's int accepted - with and without --min-sized-ints, at required / optional / item / definition positions"""
+    from vlib.kitchen import Case
+    out = []
+    n = 0
+    # (an upper bound beyond int64 is converted with int64() and wraps to the most negative value: recorded finding C05-bound-beyond-int64)
+    for leaf in ({"type": "integer", "minimum": -1e20}, {"type": "integer", "exclusiveMinimum": -1.5e19}, {"type": "integer", "minimum": -1e20, "maximum": 100}):
+        for pos in ("required", "optional", "item", "definition"):
+            if pos == "item":
+                root = {"type": "object", "properties": {"v": {"type": "array", "items": leaf}, "count": {"type": "integer", "minimum": 0, "maximum": 100}}}
+                w = lambda x: [x]       # noqa: E731
+            elif pos == "definition":
+                root = {"type": "object", "$defs": {"Big": leaf}, "properties": {"v": {"$ref": "#/$defs/Big"}}, "required": ["v"]}
+                w = lambda x: x         # noqa: E731
+            else:
+                root = {"type": "object", "properties": {"v": leaf, "count": {"type": "integer", "minimum": 0, "maximum": 100}}}
+                if pos == "required":
+                    root["required"] = ["v"]
+                w = lambda x: x         # noqa: E731
+            docs = [{"doc": {"v": w(3)}, "cls": "valid", "path": ("v",), "expect": "ACC"}, {"doc": {"v": w(-7)}, "cls": "valid", "path": ("v",), "expect": "ACC"}]
+            for bad in (1.5, -0.25, "3", True, [3], {"n": 3}):
+                if pos == "item" and isinstance(bad, list):
+                    continue
+                docs.append({"doc": {"v": w(bad)}, "cls": "type", "path": ("v",), "expect": "REJ"})
+            for ms in (False, True):
+                out.append(Case("c03hb%d" % n, root, [dict(d) for d in docs], fam="huge-bound/%s/%s" % (pos, "min-sized" if ms else "plain"), minsized=ms, no_model=True))
+                n += 1
+    return out
+
+
 def nullable_composites():
     """allOf / anyOf groups whose members are nullable objects (both spellings of the type list, one to three members, inline and as a definition): every
     typed property below the group still rejects a value of another JSON type"""
@@ -119,7 +150,7 @@ def run(ctx):
     from vlib.pairwise import sized_enum
     sysi = [r for r in sysm if "integer" in json.dumps(r) and not sized_enum(r)]
     cases += build_cases(ctx, len(sysi), None, CLASSES | {"null-not-allowed"}, "c03m", extra_schemas=sysi, docs_per=2, minsized=True, fam="min-sized")
-    nc = nullable_composites()
+    nc = nullable_composites() + huge_bound_cases()
     run_cases(ctx, cases + nc, "c03")
     evaluate(ctx, cases, CLASSES, {"type": "invalid", "null-allowed": "valid", "valid": "valid"}, "JSON types")
     nnc = 0
@@ -132,7 +163,7 @@ def run(ctx):
         ctx.cov["programs"] += 1
         for di, d in enumerate(c.docs):
             o = d.get("obs") or {}
-            ctx.count({"f": c.fam, "d": d["doc"]}, d["cls"] == "type", "nullable-composite")
+            ctx.count({"f": c.fam, "d": d["doc"]}, d["cls"] == "type", c.fam.split("/")[0])
             if o.get("v") != d["expect"] and nnc < 3:
                 ctx.violation("oracle", c.replay_obj(di), "%s: document %s is %s under the schema but the generated code answers %s" % (
                     c.fam, json.dumps(d["doc"]), "valid" if d["expect"] == "ACC" else "invalid (a value of another JSON type at %s)" % "/".join(d["path"]), o.get("v")))
